@@ -184,6 +184,13 @@ func (t *textReader) nextBeforeFieldName() (bool, error) {
 
 		if tok == tokenSymbolQuoted {
 			t.fieldName = &SymbolToken{Text: &val, LocalSID: SymbolIDUnknown}
+		} else if tok == tokenString || tok == tokenLongString {
+			// The text of a string is never a symbol ID: "$5" is the field named $5.
+			st, err := NewSymbolToken(t.SymbolTable(), val)
+			if err != nil {
+				return false, err
+			}
+			t.fieldName = &st
 		} else {
 			st, err := newSymbolToken(t.SymbolTable(), val)
 			if err != nil {
